@@ -35,20 +35,40 @@ def sh(cmd, cwd=None, env=None, timeout=None, check=True):
     return p.returncode, p.stdout, time.time() - t0
 
 
+def repo_dir():
+    """the helm tree under test: /repo, or a scratch worktree named by VERIF_REPO_DIR (used only to try
+    seeded changes in parallel without touching /repo; registered checks always run against /repo)"""
+    return os.environ.get("VERIF_REPO_DIR", "/repo")
+
+
 def build_hv():
-    """(re)build the harness binary from /repo's current working tree, hooks enabled."""
+    """(re)build the harness binary from the working tree of the repository under test, hooks enabled."""
     os.makedirs(BIN, exist_ok=True)
-    shutil.copy("/repo/go.sum", os.path.join(HARNESS, "go.sum"))
-    out = os.path.join(BIN, "hv")
-    rc, o, dt = sh(["go", "build", "-tags", "verif", "-o", out, "./cmd/hv"], cwd=HARNESS, env=GOENV,
+    rd = repo_dir()
+    hdir, out = HARNESS, os.path.join(BIN, "hv")
+    if rd != "/repo":
+        tag = hashlib.sha1(rd.encode()).hexdigest()[:8]
+        hdir = os.path.join(WORK, "harness_" + tag)
+        shutil.rmtree(hdir, ignore_errors=True)
+        shutil.copytree(HARNESS, hdir)
+        gm = open(os.path.join(hdir, "go.mod")).read().replace("=> /repo", "=> " + rd)
+        open(os.path.join(hdir, "go.mod"), "w").write(gm)
+        out = os.path.join(BIN, "hv_" + tag)
+    shutil.copy(os.path.join(rd, "go.sum"), os.path.join(hdir, "go.sum"))
+    rc, o, dt = sh(["go", "build", "-tags", "verif", "-o", out, "./cmd/hv"], cwd=hdir, env=GOENV,
                    timeout=1500, check=False)
     if rc != 0:
-        raise Inconclusive("harness does not build against /repo:\n" + o[-6000:])
+        raise Inconclusive("harness does not build against %s:\n%s" % (rd, o[-6000:]))
     return out
 
 
+def work_tag():
+    rd = repo_dir()
+    return "" if rd == "/repo" else "_" + hashlib.sha1(rd.encode()).hexdigest()[:8]
+
+
 def workdir(name):
-    d = os.path.join(WORK, name)
+    d = os.path.join(WORK, name + work_tag())
     shutil.rmtree(d, ignore_errors=True)
     os.makedirs(d)
     for f in glob.glob(os.path.join(SPEC, "*")):
